@@ -254,8 +254,9 @@ fn sample_inputs(g: &mut G) -> Vec<Vec<Call>> {
     {
         let mut k1: Vec<u8> = std::iter::repeat(b'k').take(63).collect();
         k1.extend_from_slice("é☃😀 tail".as_bytes());
+        // (k0 < k1, diverging at byte 62: inserting k1 writes the nodes of k0's tail)
         let mut k0: Vec<u8> = std::iter::repeat(b'k').take(62).collect();
-        k0.extend_from_slice("ñ".as_bytes());
+        k0.extend_from_slice(b"aabbcc");
         let mut k2 = k1.clone();
         k2.extend_from_slice("…and more than a hundred and twenty-eight bytes in total, to be sure about it".as_bytes());
         let mut ks = vec![b"a".to_vec(), k0, k1, k2];
@@ -419,6 +420,8 @@ pub fn c08(g: &mut G) {
     // file sizes at every residue around multiples of 64 KiB / 128 KiB; a file of 17 MiB
     g.emit("!scale sizes".into());
     g.emit("!scale bigfile set 21".into());
+    // several MiB of multi-byte nodes (any checksum batching has to cope with writes that straddle its blocks)
+    g.emit("!scale bigmap 700000".into());
     // checksum of arbitrary data across the 16-byte fast path boundary
     let maxlen = if g.thorough { 4096 } else { 600 };
     let mut len = 0usize;
